@@ -169,6 +169,11 @@ func ValidatePattern(name, val, p string) error {
 // "{6ba7b810-9dad-11d1-80b4-00c04fd430c8}",
 // "urn:uuid:6ba7b810-9dad-11d1-80b4-00c04fd430c8"
 func validateUUID(uuid string) error {
+	// googleuuid.Parse only examines the middle 36 bytes of the 38 bytes
+	// long "{...}" encoding: make sure the braces are actually there.
+	if len(uuid) == 38 && (uuid[0] != '{' || uuid[37] != '}') {
+		return fmt.Errorf("uuid: %s: invalid UUID format", uuid)
+	}
 	u, err := googleuuid.Parse(uuid)
 	if err != nil {
 		return fmt.Errorf("uuid: %s: %w", uuid, err)
